@@ -551,7 +551,7 @@ reg(Prop("C03", "Undoing a move restores the position exactly", ["Properties/C03
                       "applicable b m (explicit executable predicate, implied by IsPseudoLegal / membership in the generated moves on valid positions)"],
          design_ref="5/C03"))
 
-reg(Prop("C04", "Incremental hash and redundant board representations never drift", ["Properties/C04.v", "Properties/C04_closed.v"],
+reg(Prop("C04", "Incremental hash and redundant board representations never drift", ["Properties/C04.v", "Properties/C04_closed.v", "Properties/C04_effects.v"],
          [StreamCfg("mkseq", 2500, 60000, judge="judge_c04", rule=_MKSEQ_RULE),
           StreamCfg("mktp", 1500, 40000, judge="judge_c04tp",
                     rule="transposition pairs a b c d / c b a d and a b c d / a d c b of legal moves from G1/G2/G4 positions, both orders legal; "
@@ -563,7 +563,7 @@ reg(Prop("C04", "Incremental hash and redundant board representations never drif
          assumptions=["Rep b0 and hd (hashes b0) = calc_hash b0 at the start (established by ResetHash: C04_reset)",
                       "arbitrary Zobrist tables (Section variable); the engine's tables are regenerated into Gen/Zobrist.v for the correspondence"],
          design_ref="5/C04"))
-reg(Prop("C15", "Transposition table returns only what was stored for that key", "Properties/C15.v",
+reg(Prop("C15", "Transposition table returns only what was stored for that key", ["Properties/C15.v", "Properties/C15_effects.v"],
          [StreamCfg("c15", 4000, 150000, judge="judge_c15",
                     rule="operation sequences (store / probe / clear / resize+clear / resize) of length 5..400 on tables of "
                          "1..100, ~1000 and 32768 buckets over a pool of 6..12 keys drawn to collide (one bucket with more "
@@ -649,7 +649,7 @@ def _c11_classify(w):
     return None
 
 
-reg(Prop("C11", "FEN parsing and printing are inverse and robust", "Properties/C11.v",
+reg(Prop("C11", "FEN parsing and printing are inverse and robust", ["Properties/C11.v", "Properties/C11_effects.v"],
          [StreamCfg("c11rt", 4000, 100000, judge="judge_c11rt",
                     rule="positions of G1/G2/G4 (posgen) and hand-made maximal promoted material, clock overwritten with 0..150 "
                          "and boundary values, fullmove number with boundary values up to 2^63-1; FEN() then FromFEN, all fields "
@@ -904,7 +904,7 @@ _C10REUSE_RULE = ("ONE uci.Driver given 2..5 position commands in a row (start-p
                   "for some); after each command the driver's board must be the position THAT command describes (all six FEN fields "
                   "from Spec/Chess.succ_spec); shared with C10")
 reg(Prop("C06", "Search returns a legal move unless the game is over; board left untouched",
-         ["Properties/C06.v", "Properties/C06_skel.v", "Properties/C06_model.v", "Properties/C06_closed.v", "Properties/C06_model2.v"],
+         ["Properties/C06.v", "Properties/C06_skel.v", "Properties/C06_model.v", "Properties/C06_closed.v", "Properties/C06_model2.v", "Properties/C06_effects.v"],
          [StreamCfg("c06", 20000, 150000, judge="judge_c06", model=False,
                     rule="40 fixed roots (in check, single reply, promotion, en passant, clocks 97..101, 2nd/3rd/4th occurrence "
                          "through histories, mate, stalemate, 16 queens) x {every hard node budget k in 0..300 (quick) / 0..2000+ "
@@ -1034,7 +1034,7 @@ def _c10_extra(prop, res, workdir):
         "empty: root (hash with en-passant file) vs. a shuffle returning to the same position (hash without)")
 
 
-reg(Prop("C10", "Repetition count equals true recurrences of the position in the game", ["Properties/C10.v", "Properties/C10_closed.v"],
+reg(Prop("C10", "Repetition count equals true recurrences of the position in the game", ["Properties/C10.v", "Properties/C10_closed.v", "Properties/C10_effects.v"],
          [StreamCfg("c10", int(os.environ.get("VERIF_C10_N", "63")), 8000, judge="judge_c10",
                     rule="game histories of up to 400 plies (scripted knight/king/rook oscillations incl. castling rights "
                          "lost inside a cycle and en-passant rights that arise and lapse, capturable and pinned; random "
@@ -1407,7 +1407,7 @@ reg(Prop("C09", "Fast checkmate and stalemate tests agree with the absence of le
          design_ref="5/C09"))
 
 
-reg(Prop("C02", "Playing a move produces the successor position the rules prescribe", ["Properties/C02.v", "Properties/C02_closed.v"],
+reg(Prop("C02", "Playing a move produces the successor position the rules prescribe", ["Properties/C02.v", "Properties/C02_closed.v", "Properties/C02_effects.v"],
          [StreamCfg("c02", 60000, 1200000, judge="judge_c02",
                     rule="fixed en-passant / clock witnesses (F2, F5 and relatives); 25 % dedicated en-passant generator "
                          "(double push next to enemy pawns with the enemy king and an own slider lined up through the "
@@ -1486,5 +1486,5 @@ for _pid, _p in PROPS.items():
 
 
 # the properties whose Properties/Cxx_effects.v states what the translator-side effect analysis found
-for _pid in ("C01", "C05", "C09", "C12", "C14", "C17", "C18"):
+for _pid in ("C01", "C02", "C04", "C05", "C06", "C09", "C10", "C11", "C12", "C14", "C15", "C17", "C18"):
     PROPS[_pid].trusted.append(EFFECTS_TRUSTED)
